@@ -281,3 +281,12 @@ def run(ctx):
 
 
 SWEEP = ["concurrent/test_epoch.cpp"]
+
+
+# name anchors (validated by tools/rename_sweep.py; a vanished name is exit 2, see core.check_anchor_names)
+ANCHORS = {
+    'current_thread_id': ['^babylon::internal::ThreadIdImpl(<|$)'],
+    'ensure': ['^babylon::ConcurrentVector(<|$)'],
+    'for_each': ['^babylon::ConcurrentVector(<|$)'],
+    'unregister_accessor': ['^babylon::Epoch(<|$)'],
+}
